@@ -251,6 +251,32 @@ def run(ck, prog, ctx):
         if wb_.kind in ("Fn", "AssocFn") and wb_.impl_self and wb_.impl_self.get("adt") == "ontology::builder::Builder":
             check_required_steps(ck, "ROLE", prog, wb_, [("write the cache", lambda t: any(t.callee.res == a.id for a in accessor_mut)), ("visit every direct parent", lambda t: (t.callee.res or "").endswith("::all_grandparents") or t.callee.res in cache_writers)])
 
+    # ------------------------------------------------------------------ PHASE: every direct parent contributes its closure
+    # (a `continue` / guard that skips the accumulation for some parents - "redundant edge" shortcuts - loses ancestors)
+    for wid in sorted(cache_writers):
+        wb_ = prog.bodies[wid]
+        if wb_.kind not in ("Fn", "AssocFn"):
+            continue
+        fls = for_loops(wb_)
+        nat = wb_.natural_loops()
+        for i, lp in enumerate(fls):
+            src = origins(wb_, pvn, lp["iter"])
+            if not (any(o[0] == "call" and o[1] == TI + "::parents" for o in src) or ("field", TI, "parents") in src):
+                continue
+            acc = set()
+            for bi, t in wb_.calls():
+                if bi in lp["blocks"] and bi != lp["next_bb"]:
+                    nm = t.callee.res or t.callee.deff or ""
+                    if nm.endswith("HpoGroup::insert") or t.callee.method in ("extend", "bitor", "add", "bitor_assign", "append", "extend_from_slice", "insert") and "HpoGroup" in ((t.callee.def_args or "") + nm):
+                        inner = [h for h, bl in nat.items() if bi in bl and h != lp["header"] and h in lp["blocks"]]
+                        acc.add(min(inner, key=lambda h: len(nat[h])) if False else (inner[0] if inner else bi))
+                        # an accumulation inside an inner loop counts at the OUTERMOST inner loop header (that loop may run zero times)
+                        if inner:
+                            acc.discard(inner[0])
+                            acc.add(max(inner, key=lambda h: len(nat[h])))
+            if acc:
+                check_every_element(ck, "PHASE", "cache/%s/parents-loop/%d" % (wb_.short, i), wb_, lp, acc, "add the parent's ancestors to the set", "the direct parents")
+
     # ------------------------------------------------------------------ ROLE: the cache write
     for wid in sorted(cache_writers):
         w = prog.bodies[wid]
